@@ -42,6 +42,9 @@ func runC01(c *Ctx) {
 	// every name in the tree is the text of its token: identifier and keyword tokens carry text[tokenPos:pos]
 	// (a keyword is a legal member name: `this.null`)
 	c14Keywords(c, "C01.word-tokens-carry-their-text")
+	// "the whole input was consumed": a look-ahead that does not put the read position back silently drops the
+	// token it looked at (shared with C15)
+	c15SpeculationAs(c, "C01.look-ahead-restores-state")
 }
 
 func c01Recover(c *Ctx, entry *ssa.Function, ro *ParserRoles) {
@@ -90,9 +93,25 @@ func c01DiagImpliesError(c *Ctx, entry *ssa.Function, ro *ParserRoles) {
 		return
 	}
 	g := info.Closure
-	// the test len(source.Diagnostics) > 0 with a non-nil error stored on its true edge
+	// the test len(source.Diagnostics) > 0 with a non-nil error stored on its true edge: in the deferred function, or
+	// in the entry itself after the worker has returned (the error result is then a cell of the entry)
 	ok := false
-	instrs(g, func(b *ssa.BasicBlock, i int, in ssa.Instruction) {
+	isErrCellAny := func(v ssa.Value) bool {
+		switch x := v.(type) {
+		case *ssa.FreeVar:
+			pt, isP := x.Type().(*types.Pointer)
+			return isP && pt.Elem().String() == "error"
+		case *ssa.Alloc:
+			pt, isP := x.Type().(*types.Pointer)
+			return isP && pt.Elem().String() == "error" && x.Parent() == entry
+		}
+		return false
+	}
+	scanBoth := func(visit func(b *ssa.BasicBlock, i int, in ssa.Instruction)) {
+		instrs(g, visit)
+		instrs(entry, visit)
+	}
+	scanBoth(func(b *ssa.BasicBlock, i int, in ssa.Instruction) {
 		iff, isIf := in.(*ssa.If)
 		if !isIf {
 			return
@@ -112,12 +131,8 @@ func c01DiagImpliesError(c *Ctx, entry *ssa.Function, ro *ParserRoles) {
 			}
 			if t != nil {
 				for _, x := range t.Instrs {
-					if st, isSt := x.(*ssa.Store); isSt {
-						if fv, isFV := st.Addr.(*ssa.FreeVar); isFV {
-							if pt, isP := fv.Type().(*types.Pointer); isP && pt.Elem().String() == "error" && !isNilConst(st.Val) {
-								ok = true
-							}
-						}
+					if st, isSt := x.(*ssa.Store); isSt && isErrCellAny(st.Addr) && !isNilConst(st.Val) {
+						ok = true
 					}
 				}
 			}
@@ -148,12 +163,8 @@ func c01DiagImpliesError(c *Ctx, entry *ssa.Function, ro *ParserRoles) {
 			return
 		}
 		for _, x := range t.Instrs {
-			if st, isSt := x.(*ssa.Store); isSt {
-				if fv, isFV := st.Addr.(*ssa.FreeVar); isFV {
-					if pt, isP := fv.Type().(*types.Pointer); isP && pt.Elem().String() == "error" && !isNilConst(st.Val) {
-						ok = true
-					}
-				}
+			if st, isSt := x.(*ssa.Store); isSt && isErrCellAny(st.Addr) && !isNilConst(st.Val) {
+				ok = true
 			}
 		}
 		// ... or the error travels through locals first: on every path from the true edge to the end of the deferred
@@ -163,14 +174,7 @@ func c01DiagImpliesError(c *Ctx, entry *ssa.Function, ro *ParserRoles) {
 			if t == b.Succs[1] {
 				k = 1
 			}
-			isErrCell := func(v ssa.Value) bool {
-				fv, isFV := v.(*ssa.FreeVar)
-				if !isFV {
-					return false
-				}
-				pt, isP := fv.Type().(*types.Pointer)
-				return isP && pt.Elem().String() == "error"
-			}
+			isErrCell := isErrCellAny
 			ok = c.walkEdge(b, k, nil, nil, func(in ssa.Instruction, nn func(ssa.Value) int, st int) int {
 				if s, isSt := in.(*ssa.Store); isSt && isErrCell(s.Addr) {
 					if nn(s.Val) == nnNonNil {
